@@ -13,6 +13,20 @@ theorem scan_literal (l : Lit) (hw : l.WF) (rest : List Char) (ht : Term rest) :
     scan (l.render ++ rest) = (l.render.length, Val.ok l.value) :=
   Qsx.Num.scan_literal l hw rest ht
 
+/-- an exponent below 100000 (any number of leading zeros) satisfies the guard hypothesis of
+`Lit.WF`; mantissa digits are unrestricted -/
+theorem exponent_below_100000_ok (ds : List Nat) (h : dval ds < 100000) : GuardOK 0 ds := by
+  apply guardOK_of_lt
+  rw [acc_eq]; simpa using h
+
+/-- since fix d278e6f: a literal with a well-formed mantissa whose exponent digits do not pass the guard
+(more than five significant digits) is not read at all - zero characters, the variable untouched -
+whatever follows; `l_exp` therefore never exceeds 99999 and cannot overflow the C `int` -/
+theorem scan_exponent_guard (l : Lit) (hw : l.WF) (up : Bool) (sg : Sign) (e : List Nat)
+    (hed : ∀ d ∈ e, d < 10) (hg : ¬ GuardOK 0 e) (rest : List Char) :
+    scan (({ l with ex := some (up, sg, e) } : Lit).render ++ rest) = (0, Val.none) :=
+  Qsx.Num.scan_exponent_guard l hw up sg e hed hg rest
+
 /-- the scanner never reports more characters than it was given, and it always terminates
 (structural recursion on the text) -/
 theorem scan_consumes_le (cs : List Char) : (scan cs).1 ≤ cs.length :=
@@ -29,6 +43,9 @@ theorem scan_no_div_zero (cs : List Char) (q : Rat) (n : Nat) (h : scan cs = (n,
 #guard scanStr "-12.50e-1x" == (9, Val.ok (-5/4))
 #guard scanStr "3/4 " == (3, Val.ok (3/4))
 #guard scanStr "1/0" == (0, Val.none)
+#guard scanStr "7e100000" == (0, Val.none)
+#guard scanStr "7e000012x" == (8, Val.ok 7000000000000)
+#guard (scanStr "1e-99999").1 == 8
 #guard (Lit.render { sg := .minus, ip := [1, 2], fp := some [5, 0], ex := some (false, .minus, [1]) }) == "-12.50e-1".toList
 
 end Qsx.Props.C10
